@@ -137,6 +137,41 @@ CLAIMS = {
        "witnesses that replay on the implementation; text identity beyond the ASCII projection holds only when no fragment boundary "
        "splits a character.",
   ref="DESIGN.md section 4 C08"),
+ "C14": dict(
+  text="Theorems C14.I1, I2, I3, I4, I5, I6_order, final_quiet, spec_partial: for EVERY request program (nested/sequential requests "
+       "with reset / exclusive / reset_on_error, reconfigure blocks, teardown_if_alive, nested contexts, try/raise/skip), every "
+       "dependency graph, both keep_alive settings and EVERY init/teardown fault oracle, the model of Context + InstanceManager + the "
+       "machine re-entrancy counter keeps: at most one object of a class up, init/teardown alternate and nothing is up at the end, a "
+       "yielded object is up, without keep-alive a class is down once its last request is released, nothing is up after the outermost "
+       "context exit (also when teardowns raise), and _teardown_order lists every class after the classes it requests. The Spec's six "
+       "conditions are evaluated on the callback log of the real tbot.Context with instrumented machine classes (15 000 cases per "
+       "quick run; thorough: complete small-scope enumeration of 391 000 programs).",
+  note="partial: I6 is proved in its state form (order list) — the observable form (order of teardown events inside the outermost "
+       "exit) is checked on the implementation but not proved of the model; generator-based from_context is modelled by frames.",
+  ref="DESIGN.md section 4 C14"),
+ "C15": dict(
+  text="Theorem C15.refinement: for EVERY program, dependency graph, flag combination and fault oracle, the trace of the "
+       "implementation model equals the trace of RefCtx, an executable reference model written from Documentation/context.rst (per "
+       "class: alive?, holders, exclusive latch — no counters, no generators); plus the single-step laws share, exclusive_refuses, "
+       "exclusive_end, keepalive_exit, roe_tears_down, roe_off, reset_fresh, exit_exception. Three-way comparison on every generated "
+       "case: real tbot.Context vs implementation model vs reference model.",
+  note="the reference model is this project's reading of the documentation; exception identity is modelled by tags.",
+  ref="DESIGN.md section 4 C15"),
+ "C01": dict(
+  text="Theorems C01Q.posixWords_escape (the POSIX word splitter, which fails on every expansion/substitution/glob/history/operator "
+       "hazard, recovers exactly the argument list from escape(args), for ALL byte strings), C01Q.forbidden_escape, escape_no_CR_LF, "
+       "enc_shlexQuoteC (UTF-8 commutation), Tty.echo_length_noctl (the tty echoes exactly as many bytes as send(read_back) reads "
+       "back, for every line; echo_length_ctl quantifies the caret-notation excess that was defect F2); the exec/exec0/test drivers "
+       "are modelled on the channel model (Shell.exec) with the remote's answer = echo ++ cooked output ++ prompt. Correspondence: the "
+       "REAL Bash and Ash classes drive REAL bash 5.2 and dash on a pty behind a re-fragmenting transport; a helper program records "
+       "argv through a side file; the fragmentation each run produced is replayed on the Lean model and results, written bytes and "
+       "piece sizes are compared; Spec.C01 (argv = args, output = text(cook out), status exact, forbidden byte => rejected and program "
+       "not run) judges the implementation.",
+  note="partial: the end-to-end statement 'exec returns (status, text(out)) for every fragmentation' is checked by replay on every "
+       "generated case but is not yet a closed Lean theorem (its ingredients — quoting, echo law, read(n) exactness C03, prompt "
+       "fragmentation independence C02.rup_fragmentation — are); the kernel tty and the installed shells are the environment, not "
+       "models; command lines below the tty line limit.",
+  ref="DESIGN.md section 4 C01"),
 }
 
 REASON_TODO = "check not built yet (work in progress; will be claimed once its Lean model, theorems and correspondence harness exist)"
